@@ -333,7 +333,7 @@ class DataFormat(object):
         elif name == KEY_ALLOWED_CHARACTERS:
             try:
                 self._allowed_characters = ranges.Range(value)
-            except errors.InterfaceError as error:
+            except (errors.InterfaceError, tokenize.TokenError) as error:
                 raise errors.InterfaceError(
                     "data format property %s must be a valid range: %s"
                     % (_compat.text_repr(KEY_ALLOWED_CHARACTERS), error),
